@@ -45,9 +45,16 @@ func reasonCode(s string) int {
 	return 99
 }
 
-type dropLog struct{ outs *[]outc }
+type dropLog struct {
+	outs *[]outc
+	max  int
+}
 
 func (d dropLog) Drop(err error) {
+	if len(*d.outs) > d.max {
+		// every drop consumes input: more drops than input bytes means the reader is looping
+		panic("reader does not terminate (more Drop calls than input bytes)")
+	}
 	if e, ok := err.(*journal.ErrCorrupted); ok {
 		*d.outs = append(*d.outs, outc{Kind: oDrop, Reason: reasonCode(e.Reason), Size: e.Size})
 	} else {
@@ -90,7 +97,7 @@ func readImpl(data []byte, strict, checksum bool, piece int) (outs []outc, panic
 	if piece > 0 {
 		src = &pieceReader{data, piece}
 	}
-	jr := journal.NewReader(src, dropLog{&outs}, strict, checksum)
+	jr := journal.NewReader(src, dropLog{&outs, 2*len(data) + 64}, strict, checksum)
 	buf := &util.Buffer{}
 	maxIter := len(data) + 16
 	for it := 0; ; it++ {
